@@ -26,6 +26,9 @@ Verdict(r) ==
           THEN {"constructor-argument-not-visible"} ELSE {})
     \cup (IF \E i \in 1..Len(r.props) : r.props[i].set # "<absent>" /\ r.props[i].after_set # Norm(r.props[i].set)
           THEN {"property-set-get"} ELSE {})
+    \cup (IF Has(r, "args_read") /\ r.args_read # <<>> THEN {"constructor-argument-not-readable"} ELSE {})
+    (* "at any depth": the same element parsed as the second of two instances in one parent answers the same *)
+    \cup (IF Has(r, "context") /\ r.context # <<>> THEN {"property-differs-inside-a-document"} ELSE {})
 
 VARIABLES l, bad
 vars == <<l, bad>>
